@@ -740,6 +740,7 @@ def e2e_stage(ctx):
         rd["id"] = i
     rr = common.run_harness("c12", reads)
     out = []
+    base_state = {}
     for rd, (fmt, what, n) in zip(reads, meta):
         r = rr[rd["id"]]
         rep = r.get("report", {})
@@ -747,16 +748,18 @@ def e2e_stage(ctx):
         defects = layout_defects(norm_impl_map(r["box"])[1], r["len"]) if r.get("box", {}).get("r") == "ok" else []
         out.append({"fmt": fmt, "mutation": what, "state": state, "failure": rep.get("failure"), "defects": [d[0] for d in defects]})
         case = {"fmt": fmt, "kind": "e2e", "mutation": what, "read": {k: v for k, v in rd.items() if k != "id"}}
+        ok_hash = "assertion.boxesHash.match" in rep.get("success", [])
         if what == "unchanged":
-            if state != "Trusted" or "assertion.boxesHash.match" not in rep.get("success", []):
-                raise TieBroken(f"e2e: freshly box-hashed {fmt} does not validate: {rep}")
+            if not ok_hash:
+                raise TieBroken(f"e2e: the box hash of a freshly box-hashed {fmt} does not verify: {rep}")
+            base_state[fmt] = state
         elif what == "inside-sos":
-            if state == "Trusted":
-                ctx.report_violation(case, "bytes added inside a hashed entry left the asset Trusted", dict(fmt=fmt, defect="e2e-covered-change", kind="e2e"))
+            if ok_hash:
+                ctx.report_violation(case, "bytes added inside a hashed entry still verify against the box hash", dict(fmt=fmt, defect="e2e-covered-change", kind="e2e"))
         else:
             unc = [d for d in defects if d[0] in ("trailing", "gap")]
-            if unc and state in ("Trusted", "Valid"):
-                ctx.report_violation(case, f"{fmt}: {what}: bytes covered by no box-map entry were added to a box-hashed asset and it is still {state} ({unc[0][1]})",
+            if unc and ok_hash and state == base_state.get(fmt):
+                ctx.report_violation(case, f"{fmt}: {what}: bytes covered by no box-map entry were added to a box-hashed asset; the box hash still matches and the state is still {state} ({unc[0][1]})",
                                      dict(fmt=fmt, defect=what, kind="e2e", state=state))
     return out
 
